@@ -87,6 +87,8 @@ def gen_request(rng, thorough):
             s["has_z"] = rng.random() < 0.8
         else:
             z = start[2] + (rng.uniform(-3, 3) * R if kind in ("arc_helical", "helix_const") else 0.0)
+            if kind in ("arc_helical", "helix_const") and rng.random() < 0.15:
+                z = 0.0                      # a 3-D target on the Z = 0 plane, exactly
             s["target"] = (cx + R * math.cos(a1), cy + R * math.sin(a1), z)
             s["has_z"] = kind in ("arc_helical", "helix_const")
             if kind == "helix_const":
@@ -484,6 +486,9 @@ def main():
     reqs.insert(0, dict(kind="polyline", start=(3.0, 4.0, 1.0), ccw=True, relative=False, points=[(1.0, 1.0, 1.0), (0.0, 0.0, 0.0), (2.0, 0.0, 0.0)], dim=3, size=3.0, res=0.5))
     reqs.insert(0, dict(kind="spline", start=(0.0, 0.0, 0.0), ccw=True, relative=False, points=[(5.0, 5.0, 0.0), (10.0, 0.0, 0.0), (5.0, -5.0, 0.0), (0.0, 0.0, 0.0)], dim=3, size=7.0, res=0.5))
     reqs.insert(0, dict(kind="spline", start=(2.0, 1.0, 0.0), ccw=True, relative=True, points=[(6.0, 5.0, 0.0), (9.0, 1.0, 0.0), (6.0, 5.0, 0.0), (2.0, 8.0, 0.0)], dim=3, size=6.0, res=0.4))
+    # a helical arc down to the Z = 0 plane exactly, from a start above it (absolute and relative phrasing)
+    reqs.insert(0, dict(kind="arc_helical", start=(8.0, 0.0, 4.0), ccw=True, relative=False, centre=(-4.0, 0.0), target=(4.0, 4.0, 0.0), has_z=True, size=4.0, res=0.3))
+    reqs.insert(0, dict(kind="arc_helical", start=(8.0, 0.0, -2.5), ccw=False, relative=True, centre=(-4.0, 0.0), target=(4.0, -4.0, 0.0), has_z=True, size=4.0, res=0.3))
     # a helix straight up (the docstring's own use), one further out on the same ray, a spiral to a point on the +X ray
     reqs.insert(0, dict(kind="helix_const", start=(12.0, 7.0, 0.0), ccw=True, relative=False, centre=(-5.0, 0.0), target=(12.0, 7.0, 6.0), has_z=True, turns=2, size=5.0, res=0.5))
     reqs.insert(0, dict(kind="helix", start=(12.0, 7.0, 1.0), ccw=False, relative=True, centre=(0.0, -4.0), target=(12.0, 17.0, -3.0), has_z=True, turns=1, size=6.0, res=0.5))
